@@ -1,6 +1,6 @@
 (* Dispatch.v — one entry point `run op arg` for every executable model and spec.
    Used identically by the extracted runner (coq/extract) and by `Eval vm_compute` re-evaluation. *)
-From Verif Require Import PyVal Rows Enc ComparableGen AsIndicesGen Order Sort SortSpec Dedup DedupSpec Basics SetOps SetSpec Joins Relational HashJoins Reductions GroupSpec Machines Selects Transforms.
+From Verif Require Import PyVal Rows Enc ComparableGen AsIndicesGen Order Sort SortSpec Dedup DedupSpec Basics SetOps SetSpec Joins Relational HashJoins Reductions GroupSpec Machines Selects Transforms Reshape.
 Open Scope Z_scope.
 
 Definition run_cmp (arg : val) : val :=
@@ -719,6 +719,61 @@ Definition run_addfields (arg : val) : val :=
   | _ => bad_input
   end.
 
+(* ---- reshape (C14) ----------------------------------------------------------------------------------------------- *)
+Definition enc_dict (d : list (val * val)) : val := vlist (map (fun kv => vtuple [fst kv; snd kv]) d).
+Definition dec_dicts (v : val) : option (list (list (val * val))) :=
+  match v with VSeq _ l => dec_all dec_pairs l | _ => None end.
+
+Definition run_reshape (arg : val) : val :=
+  match arg with
+  | VSeq _ (VStr nm :: args) =>
+      match args with
+      | [t] =>
+          if zs_eqb nm "transpose" then match dec_table t with Some t' => enc_gen (transpose_model t') | None => bad_input end
+          else if zs_eqb nm "flatten" then match dec_table t with Some t' => vlist (flatten_model t') | None => bad_input end
+          else bad_input
+      | [a; t] =>
+          if zs_eqb nm "dicts" then match dec_table t with Some t' => vlist (map enc_dict (dicts_model a t')) | None => bad_input end
+          else if zs_eqb nm "columns" then
+            match dec_table t with
+            | Some t' => vlist (map (fun fc => vtuple [fst fc; vlist (snd fc)]) (columns_model a t'))
+            | None => bad_input end
+          else bad_input
+      | [a; b; c] =>
+          if zs_eqb nm "unflatten" then match dec_nat a, c with
+                                        | Some p, VSeq _ vs => enc_gen (unflatten_model p b vs) | _, _ => bad_input end
+          else if zs_eqb nm "fromdicts" then match dec_nat a, dec_dicts c with
+                                             | Some s, Some ds => enc_table (fromdicts_model s b ds) | _, _ => bad_input end
+          else if zs_eqb nm "fromcolumns" then match dec_row a, c with
+                                               | Some h, VSeq _ cols => match dec_all dec_seq cols with
+                                                                        | Some cs => enc_table (fromcolumns_model h b cs)
+                                                                        | None => bad_input end
+                                               | _, _ => bad_input end
+          else if zs_eqb nm "splitdown" then match dec_Z b, dec_table c with
+                                             | Some sep, Some t' => enc_gen (splitdown_model a sep t') | _, _ => bad_input end
+          else bad_input
+      | [a; b; c; d; t] =>
+          if zs_eqb nm "melt" then match dec_table t with
+                                   | Some t' => enc_gen (melt_model (dec_key a) (dec_key b) c d t') | None => bad_input end
+          else if zs_eqb nm "unpack" then match b, dec_bool c, dec_table t with
+                                          | VSeq _ nf, Some inc, Some t' => enc_gen (unpack_model a nf inc d t')
+                                          | _, _, _ => bad_input end
+          else bad_input
+      | [key; vf; valf; ss; missing; bs; t] =>
+          if zs_eqb nm "recast" then match dec_nat ss, dec_opt dec_nat bs, dec_table t with
+                                     | Some s, Some bs', Some t' => enc_gen (recast_model (dec_key key) vf valf s missing bs' t')
+                                     | _, _, _ => bad_input end
+          else bad_input
+      | [f1; f2; f3; agg; missing; pre; bs; t] =>
+          if zs_eqb nm "pivot" then match dec_fn agg, dec_bool pre, dec_opt dec_nat bs, dec_table t with
+                                    | Some a, Some p, Some bs', Some t' => enc_gen (pivot_model f1 f2 f3 a missing p bs' t')
+                                    | _, _, _, _ => bad_input end
+          else bad_input
+      | _ => bad_input
+      end
+  | _ => bad_input
+  end.
+
 Definition run (op : list Z) (arg : val) : val :=
   if zs_eqb op "cmp" then run_cmp arg
   else if zs_eqb op "sort" then run_sort arg
@@ -745,6 +800,7 @@ Definition run (op : list Z) (arg : val) : val :=
   else if zs_eqb op "group_spec" then run_group_spec arg
   else if zs_eqb op "const_true" then vbool true
   else if zs_eqb op "transform" then run_transform arg
+  else if zs_eqb op "reshape" then run_reshape arg
   else if zs_eqb op "addfields" then run_addfields arg
   else if zs_eqb op "select" then run_select arg
   else if zs_eqb op "rowslice" then run_rowslice arg
